@@ -36,7 +36,7 @@ class Sandbox:
             e.update(env)
         try:
             p = subprocess.run(argv, cwd=cwd or self.root, env=e, stdout=subprocess.PIPE, stderr=subprocess.PIPE,
-                               timeout=timeout, input=input)
+                               timeout=timeout, input=input, umask=getattr(self, 'umask', None) if getattr(self, 'umask', None) is not None else -1)
             rc, out, err = p.returncode, p.stdout.decode('utf-8', 'replace'), p.stderr.decode('utf-8', 'replace')
         except subprocess.TimeoutExpired as t:
             rc, out, err = 124, (t.stdout or b'').decode('utf-8', 'replace'), 'TIMEOUT'
